@@ -5,6 +5,7 @@ import (
 	"fmt"
 	"os"
 	"sort"
+	"strings"
 	"testing"
 
 	"pgregory.net/rapid"
@@ -163,8 +164,8 @@ func Check(c *Case) (o core.Outcome) {
 			core.Count("resource_skipped_out_of_domain", 1)
 		case death.Kind == "oom":
 			o.Fail = &core.Failure{Kind: "fatal-oom", Msg: fmt.Sprintf("in-domain input (S=%d, %d bytes) aborted the process with out of memory under a %d KiB address space: %s", s, len(c.Input), AddressSpaceKiB, death.Detail)}
-		case death.Kind == "timeout" && death.CPU >= 12:
-			o.Fail = &core.Failure{Kind: "timeout", Msg: fmt.Sprintf("in-domain input (S=%d, %d bytes) did not return within %d s (process CPU %.1f s)", s, len(c.Input), WatchdogSeconds, death.CPU)}
+		case death.Kind == "timeout" && death.CPU > 10:
+			o.Fail = &core.Failure{Kind: "timeout", Msg: fmt.Sprintf("in-domain input (S=%d, %d bytes): %s, its thread having used %.1f s of user CPU time", s, len(c.Input), strings.SplitN(death.Detail, " |", 2)[0], death.CPU)}
 		default:
 			core.Count("inconclusive_worker_death", 1)
 		}
@@ -186,7 +187,7 @@ func Check(c *Case) (o core.Outcome) {
 		return
 	}
 	if resp.CPUms > 10000 {
-		o.Fail = &core.Failure{Kind: "time", Msg: fmt.Sprintf("decode used %d ms of CPU on its thread (wall %d ms) for a %d-byte input declaring S=%d samples", resp.CPUms, resp.WallMs, len(c.Input), s)}
+		o.Fail = &core.Failure{Kind: "time", Msg: fmt.Sprintf("decode used %d ms of user CPU time on its thread (wall %d ms) for a %d-byte input declaring S=%d samples", resp.CPUms, resp.WallMs, len(c.Input), s)}
 		return
 	}
 	b := budget(s)
@@ -256,6 +257,9 @@ var hostile = []byte{0, 1, 2, 3, 4, 7, 8, 15, 16, 17, 31, 32, 63, 64, 0x7F, 0x80
 func mutate(t *rapid.T, it *Item, data []byte) ([]byte, string) {
 	segs, hdr := segmentsOf(it)
 	kinds := []string{"trunc", "setbyte", "setbyte", "field", "field", "seglen", "seglen", "segop", "splice", "tail", "insert", "word"}
+	if it.Family == "j2k" && len(segs) > 0 {
+		kinds = append(kinds, "tilegrid", "tilegrid")
+	}
 	if len(segs) == 0 {
 		kinds = []string{"trunc", "setbyte", "setbyte", "tail", "insert", "word", "splice"}
 	}
@@ -318,6 +322,60 @@ func mutate(t *rapid.T, it *Item, data []byte) ([]byte, string) {
 			copy(out[b.off:], sa)
 			return out, fmt.Sprintf("segop:over@%d<-%d", b.off, a.off)
 		}
+	case "tilegrid":
+		// Cooperating geometry edits: tile size / tile origin in SIZ together with tile index,
+		// tile-part counters and length in SOT (a tile-part that lies outside the declared grid,
+		// a tile far larger than the image, ...). Each field is changed with probability 1/2.
+		desc := "tilegrid:"
+		put32 := func(off int, v uint32) {
+			if off+4 <= len(out) {
+				out[off], out[off+1], out[off+2], out[off+3] = byte(v>>24), byte(v>>16), byte(v>>8), byte(v)
+			}
+		}
+		sizes := []uint32{1, 2, 3, 7, 8, 64, 1 << 15, 1 << 16, 1 << 20, 1 << 23, 1 << 26, 1<<31 - 1, 1<<32 - 1}
+		for i := 0; i+4 < len(out); i++ {
+			if out[i] == 0xFF && out[i+1] == 0x51 { // SIZ: XTsiz at +22, YTsiz at +26, XTOsiz +30, YTOsiz +34 from the marker
+				if rapid.Bool().Draw(t, "xt") {
+					v := rapid.SampledFrom(sizes).Draw(t, "xtv")
+					put32(i+22, v)
+					desc += fmt.Sprintf(",XTsiz=%d", v)
+				}
+				if rapid.Bool().Draw(t, "yt") {
+					v := rapid.SampledFrom(sizes).Draw(t, "ytv")
+					put32(i+26, v)
+					desc += fmt.Sprintf(",YTsiz=%d", v)
+				}
+				if rapid.IntRange(0, 3).Draw(t, "to") == 0 {
+					v := rapid.SampledFrom([]uint32{1, 2, 8, 1 << 16}).Draw(t, "tov")
+					put32(i+30, v)
+					desc += fmt.Sprintf(",XTOsiz=%d", v)
+				}
+				break
+			}
+		}
+		for i := 0; i+12 <= len(out); i++ {
+			if out[i] == 0xFF && out[i+1] == 0x90 && out[i+2] == 0 && out[i+3] == 10 { // SOT
+				if rapid.Bool().Draw(t, "isot") {
+					v := rapid.SampledFrom([]int{1, 2, 3, 255, 256, 65534, 65535}).Draw(t, "isotv")
+					out[i+4], out[i+5] = byte(v>>8), byte(v)
+					desc += fmt.Sprintf(",Isot=%d", v)
+				}
+				if rapid.IntRange(0, 2).Draw(t, "tp") == 0 {
+					out[i+10] = rapid.SampledFrom([]byte{1, 2, 255}).Draw(t, "tpsot")
+					out[i+11] = rapid.SampledFrom([]byte{0, 1, 2, 255}).Draw(t, "tnsot")
+					desc += ",TPsot/TNsot"
+				}
+				if rapid.IntRange(0, 2).Draw(t, "psot") == 0 {
+					v := rapid.SampledFrom([]uint32{0, 12, 13, 14, 1 << 16, 1<<32 - 1}).Draw(t, "psotv")
+					put32(i+6, v)
+					desc += fmt.Sprintf(",Psot=%d", v)
+				}
+				if rapid.Bool().Draw(t, "firstonly") {
+					break
+				}
+			}
+		}
+		return out, desc
 	case "splice":
 		other := pool[rapid.IntRange(0, len(pool)-1).Draw(t, "other")]
 		p := rapid.IntRange(0, len(out)).Draw(t, "cut")
